@@ -488,10 +488,38 @@ pub fn literal_stream(rng: &mut Rng, thorough: bool) -> Vec<TextCase> {
             t.push(form.replace("{w}", w));
         }
     }
+    // operators and built-ins applied directly to extreme literals, and extreme literals combined: whatever a parser
+    // computes ahead of time (a folded sign, a folded constant) must not fail where the evaluator would report an error
+    let extremes = ["i-170141183460469231731687303715884105728", "i170141183460469231731687303715884105727", "i0", "f1.7976931348623157e308", "f-1.7976931348623157e308", "f4.9e-324", "f0", "f-0",
+        "d79228162514264337593543950335", "d-79228162514264337593543950335", "d0.0000000000000000000000000001", "d0", "d-0", "0x7fffffffffffffffffffffffffffffff", "0o8", "0b1", "\"\"", "true", "none", "[]", "{}"];
+    for x in extremes {
+        for pre in ["-", "--", "---", "!", "!!", "- -", "-(", "!("] {
+            t.push(format!("{}{}{}", pre, x, if pre.ends_with('(') { ")" } else { "" }));
+            t.push(format!("@k: {}{}{}; i1", pre, x, if pre.ends_with('(') { ")" } else { "" }));
+        }
+        for f in ["int", "float", "dec", "is_some", "is_none", "some", "none", "date_time", "datetime", "duration", "to_upper", "to_lower", "uppercase", "lowercase", "trim", "round", "floor", "fract", "year", "month", "week", "day", "hour", "minute", "second"] {
+            t.push(format!("{}({})", f, x));
+        }
+        for y in extremes {
+            for op in ["+", "-", "*", "/", "%", "&", "|", "^", "==", "!=", "<", ">=", "and", "or", "contains", "in"] {
+                t.push(format!("{} {} {}", x, op, y));
+            }
+        }
+        t.push(format!("if {} then {} else {}", x, x, x));
+        t.push(format!("[{}].0", x));
+        t.push(format!("{{k: {}}}.k", x));
+        t.push(format!("{}.0", x));
+        t.push(format!("{}.k", x));
+    }
     t.into_iter().map(|text| TextCase { text, tag: "literals" }).collect()
 }
 
-pub const GAPS: [&str; 14] = [" ", "\t", "\u{a0}", "\u{2003}", "\n", "\r\n", "\r", "  \n  ", "//c\n", "//\r", " //c\n ", "//c\r\n//d\n", "\u{85}", "//\"q\n"];
+pub const GAPS: [&str; 22] = [
+    " ", "\t", "\u{a0}", "\u{2003}", "\n", "\r\n", "\r", "  \n  ", "//c\n", "//\r", " //c\n ", "//c\r\n//d\n", "\u{85}", "//\"q\n",
+    // comments whose text looks like other syntax: a block-comment opener / closer, closing brackets, a rule separator,
+    // an `@key:` item, a backslash at the end, a comment ended by a bare carriage return after such text
+    "// see /api/*\n", "// */ x /* y\n", "// )]}\n", "// a\n// ---\n", "// @k: i1;\n", "// c\\\n", "// (/*\r", "//---\r\n",
+];
 
 /// layout (C08): the same token sequence with every gap filled by each gap shape parses to the same tree
 pub fn layout_stream(rng: &mut Rng, thorough: bool) -> Vec<(Vec<String>, &'static str)> {
@@ -1123,7 +1151,7 @@ pub fn run_c08(rep: &mut Report, driver: &str, workers: usize, thorough: bool, s
             rep.add_finding(Finding { kind: "impl-violates-property".into(), stream: "layout".into(), case: format!("parse\t{}", hex(&t.text)), human: format!("{:?}", t.text), impl_out: imp.clone(), model_out: b.clone(), predicate: "the amount and kind of whitespace, newlines and // comments between two tokens never changes the parsed tree (compared with the single-space text)".into(), signature: sig });
         }
     }
-    judge_texts("C08", "layout", "14 token sequences (thorough +200 random) x 14 gap shapes (space, tab, NBSP, U+2003, U+0085, \\n, \\r\\n, \\r, blank lines, comments ended by \\n / \\r / \\r\\n, consecutive comments, a comment containing a quote) placed at every boundary at once, at each boundary alone, and around the text; predicate on the real parser: same tree as with single spaces; and compared with the reference lexer/parser", true, &run, "full", rep);
+    judge_texts("C08", "layout", "14 token sequences (thorough +200 random) x 22 gap shapes (space, tab, NBSP, U+2003, U+0085, \\n, \\r\\n, \\r, blank lines, comments ended by \\n / \\r / \\r\\n, consecutive comments, comments whose text looks like other syntax — `/*`, `*/`, closing brackets, `---`, `@k: i1;`, a trailing backslash —, a comment containing a quote) placed at every boundary at once, at each boundary alone, and around the text; predicate on the real parser: same tree as with single spaces; and compared with the reference lexer/parser", true, &run, "full", rep);
 }
 
 /// `Rule::new` with hand-built metadata, clones and comparisons: the accessors return exactly what was put in
